@@ -327,9 +327,11 @@ theorem vectorKeepStrides_dot : ∀ (sh : Shape) (es ss c : List Int), es.length
       subst hc0
       simp
 
-/-- `Transpose()` of a vector (pending transpose, full-length strides): the storage is untouched, the pending
-    transpose is dropped and every in-box coordinate addresses the cell it addressed before -/
+/-- `Transpose()` of a vector (pending transpose, full-length strides; a view, or a tensor whose array is in the
+    default layout of the pattern the transpose started from — another owner is compacted): the storage is untouched,
+    the pending transpose is dropped and every in-box coordinate addresses the cell it addressed before -/
 theorem transpose_vector (st : St) (t : Dense) (o : AP) (hold : t.old = some o) (hv : isVector t.shape = true)
+    (hk : (t.view || Dense.isDefaultLayout o t.win.len) = true)
     (hns : isScalar t.shape = false) (hl : t.ap.strides.length = t.ap.shape.length)
     (hdl : (Dense.defaultStrides t.ap.o.col t.shape).length = t.ap.shape.length) :
     ∃ t', Dense.transpose st t = .ok (st, t') ∧ t'.old = none ∧ t'.shape = t.shape ∧ t'.win = t.win ∧
@@ -338,8 +340,10 @@ theorem transpose_vector (st : St) (t : Dense) (o : AP) (hold : t.old = some o) 
     (Dense.vectorKeepStrides t.shape (Dense.defaultStrides t.ap.o.col t.shape) t.ap.strides)
   let ap' : AP := { t.ap with strides := st' }
   refine ⟨{ t with ap := ap', old := none, tw := none }, ?_, rfl, rfl, rfl, ?_⟩
-  · unfold Dense.transpose
-    simp only [hold, hns, hv, Bool.false_eq_true, if_false, if_true, pure, Except.pure]
+  · have hk' : (!t.view && !Dense.isDefaultLayout o t.win.len) = false := by
+      cases h1 : t.view <;> cases h2 : Dense.isDefaultLayout o t.win.len <;> simp_all
+    unfold Dense.transpose
+    simp only [hold, hns, hv, hk', Bool.false_eq_true, if_false, if_true, pure, Except.pure]
     rfl
   · intro c hc
     show dot c (Dense.copyPrefix t.ap.strides (Dense.vectorKeepStrides t.shape _ t.ap.strides)) = _
